@@ -262,7 +262,7 @@ class Engine:
                 w('    def __init__(self):')
             else:
                 w(f'class A_{an}(dawgie.{base}):')
-                if self.style == 'auto' and a['ev']:
+                if self.style in ('auto', 'custom') and a['ev']:
                     evs = ', '.join(
                         self._moment(e, 'None', 'None', brk if hit(brk.get('what'), a['n']) else None)
                         for e in a['ev'])
@@ -307,6 +307,25 @@ class Engine:
                 w('    def run(self, ps, timeline):')
                 w(f"        rt.run(PKG, TASK, self, 'regress', timeline)")
             w('')
+        if self.style == 'custom':
+            # current (self-registering) style, but the package brings its own
+            # hand-written factories built on the dawgie.base bots: the
+            # documented way to customise the factory/bot pattern
+            offered = self.offered(task)
+            for k in ('task', 'analysis', 'regress'):
+                if k not in offered:
+                    continue
+                members = ', '.join(f"A_{ident(a['n'])}" for a in mine if a['k'] == k)   # classes
+                if k == 'task':
+                    w("def task(prefix: str, ps_hint: int = 0, runid: int = -1, target: str = '__none__'):")
+                    w(f'    return dawgie.base.Task(prefix, ps_hint, runid, target, [{members}])')
+                elif k == 'analysis':
+                    w('def analysis(prefix: str, ps_hint: int = 0, runid: int = -1):')
+                    w(f'    return dawgie.base.Analysis(prefix, ps_hint, runid, [{members}])')
+                else:
+                    w("def regress(prefix: str, ps_hint: int = 0, target: str = '__none__'):")
+                    w(f'    return dawgie.base.Regress(prefix, ps_hint, target, [{members}])')
+                w('')
         if self.style == 'legacy':
             offered = self.offered(task)
             botbase = {'task': 'Task', 'analysis': 'Analysis', 'regress': 'Regress'}
